@@ -1,0 +1,128 @@
+//go:build verif
+
+// Contracts for the verification engine in /verif (comment-only file; it is
+// compiled only with the build tag "verif" and contains no code).
+
+package secure
+
+// ---- C17: marked bodies travel encrypted and are restored ---------------------------
+// AES is abstracted by two uninterpreted functions (key = the plugin's key array,
+// whose contents never change; data = byte sequences) with the
+// inverse law as an axiom (assumption about goutil.AESEncrypt/AESDecrypt); the
+// zero-copy conversions between strings and bytes are abstracted the same way.
+//@ spec fn aesEnc(k int, x int) int
+//@ spec fn aesDec(k int, x int) int
+//@ axiom[aes-inverse] forall k int, x int :: {aesEnc(k, x)} aesDec(k, aesEnc(k, x)) == x
+//@ spec fn strOfBytes(v int) string
+//@ spec fn bytesOfStr(s string) int
+//@ axiom[string-bytes-inverse] forall v int :: {strOfBytes(v)} bytesOfStr(strOfBytes(v)) == v
+//@ ext github.com/henrylee2cn/goutil.AESEncrypt
+//@   params key plain
+//@   flags libframe seq
+//@   ensures[abstract] view(result) == aesEnc(base(key), old(view(plain)))
+//@ ext github.com/henrylee2cn/goutil.AESDecrypt
+//@   params key ct
+//@   flags libframe seq
+//@   ensures[abstract] result.1 == nil ==> view(result.0) == aesDec(base(key), old(view(ct)))
+//@ ext github.com/henrylee2cn/goutil.BytesToString
+//@   params b
+//@   flags libframe seq
+//@   ensures[abstract] result == strOfBytes(old(view(b)))
+//@ ext github.com/henrylee2cn/goutil.StringToBytes
+//@   params s
+//@   flags libframe seq
+//@   ensures[abstract] view(result) == bytesOfStr(s)
+
+// the contexts the hooks are handed (handlerCtx or callCmd): stable accessors
+//@ spec fn outMsg(c iface) *socket.message
+//@ spec fn inMsg(c iface) *socket.message
+//@ spec fn swapOf(c iface) iface
+//@ spec fn ctxStat(c iface) *status.Status
+//@ iface erpc.WriteCtx.Output
+//@   modifies nothing
+//@   ensures istype(result, type(*socket.message)) && as(result, type(*socket.message)) == outMsg(self) && outMsg(self) != nil && outMsg(self).meta != nil
+//@ iface erpc.WriteCtx.Status
+//@   modifies nothing
+//@   ensures result == ctxStat(self)
+//@ iface erpc.WriteCtx.Swap
+//@   modifies nothing
+//@   ensures result == swapOf(self) && result != nil
+//@ iface erpc.ReadCtx.Input
+//@   modifies nothing
+//@   ensures istype(result, type(*socket.message)) && as(result, type(*socket.message)) == inMsg(self) && inMsg(self) != nil && inMsg(self).meta != nil
+//@ iface erpc.ReadCtx.Swap
+//@   modifies nothing
+//@   ensures result == swapOf(self) && result != nil
+//@ ghost global lastPeek int
+//@ iface erpc.ReadCtx.PeekMeta
+//@   flags seq
+//@   modifies ghost.lastPeek
+//@   ghostset ghost.lastPeek = view(result)
+
+// isSecure: is the message marked? (trusted reading of the metadata; it may delete
+// a mark that is present but not "true")
+//@ ghost global lastIsSecure bool
+//@ trusted isSecure
+//@   flags libframe
+//@   modifies fields(meta), allelems(type(utils.argsKV)), allelems(type(byte)), ghost.lastIsSecure
+//@   ghostset ghost.lastIsSecure = result
+//@ trusted EnforceSecure
+//@   flags libframe
+//@   modifies fields(as(output, type(*socket.message)).meta), allelems(type(utils.argsKV)), allelems(type(byte))
+// marshalling/unmarshalling the message body: the bytes produced / consumed
+//@ ghost global lastMarshal int
+//@ ghost global lastUnmarshal int
+//@ ghost global unmarshals int
+//@ trusted socket.(*message).MarshalBody in plugin/secure.(*encryptPlugin).PreWriteCall
+//@   flags libframe seq
+//@   modifies ghost.lastMarshal
+//@   ghostset ghost.lastMarshal = view(result.0)
+//@ trusted socket.(*message).UnmarshalBody in plugin/secure.(*decryptPlugin).PostReadCallBody
+//@   flags libframe seq
+//@   modifies allelems(type(byte)), ghost.lastUnmarshal, ghost.unmarshals
+//@   ghostset ghost.lastUnmarshal = view(bodyBytes)
+//@   ghostset ghost.unmarshals = old(ghost.unmarshals) + 1
+
+// encrypt side (calls, pushes and replies all go through PreWriteCall)
+//@ func (*encryptPlugin).PreWriteCall
+//@   property C17
+//@   flags libframe seq
+//@   requires e.statCode != 0
+//@   let om = outMsg(ctx)
+//@   let wanted = ghost.lastIsSecure || swapOf(ctx).#gkeys[iface(type(swapKey), accept_encrypt)]
+//@   modifies om.body, fields(om.meta), allelems(type(utils.argsKV)), allelems(type(byte)), ghost.lastIsSecure, ghost.lastMarshal
+//@   ensures[failed-message-untouched] ctxStat(ctx) != nil ==> result == nil && om.body == old(om.body)
+//@   ensures[unmarked-untouched] ctxStat(ctx) == nil && !wanted ==> result == nil && om.body == old(om.body)
+//@   ensures[marked-is-encrypted] ctxStat(ctx) == nil && wanted && statOK(result) ==> istype(om.body, type(*Encrypt)) && fresh(as(om.body, type(*Encrypt))) && as(om.body, type(*Encrypt)).Cipherversion == e.version && as(om.body, type(*Encrypt)).Ciphertext == strOfBytes(aesEnc(base(e.cipherkey), ghost.lastMarshal))
+//@   ensures[marked-never-left-in-clear] ctxStat(ctx) == nil && wanted ==> !statOK(result) || istype(om.body, type(*Encrypt))
+
+// decrypt side, before the body is read: a marked frame is read into an Encrypt
+// object (the route's own body is parked in the swap), and the swap records
+// whether the reply has to be encrypted
+//@ func (*decryptPlugin).PreReadCallBody
+//@   property C17
+//@   flags libframe seq
+//@   let im = inMsg(ctx)
+//@   let sw = swapOf(ctx)
+//@   let acceptTrue = strOfBytes(ghost.lastPeek) == "true"
+//@   let acceptFalse = strOfBytes(ghost.lastPeek) == "false"
+//@   modifies im.body, fields(im.meta), allelems(type(utils.argsKV)), allelems(type(byte)), ghost.lastIsSecure, ghost.lastPeek, mapviews
+//@   ensures[never-vetoes] result == nil
+//@   ensures[marked-read-as-encrypt] ghost.lastIsSecure ==> istype(im.body, type(*Encrypt)) && fresh(as(im.body, type(*Encrypt))) && sw.#gkeys[iface(type(swapKey), encrypt_rawbody)] && sw.#gvals[iface(type(swapKey), encrypt_rawbody)] == old(im.body)
+//@   ensures[unmarked-untouched] !ghost.lastIsSecure ==> im.body == old(im.body) && sw.#gkeys[iface(type(swapKey), encrypt_rawbody)] == old(sw.#gkeys[iface(type(swapKey), encrypt_rawbody)])
+//@   ensures[reply-encryption-recorded] (ghost.lastIsSecure && !acceptFalse) || (!ghost.lastIsSecure && acceptTrue) ==> sw.#gkeys[iface(type(swapKey), accept_encrypt)]
+//@   ensures[reply-encryption-not-invented] !((ghost.lastIsSecure && !acceptFalse) || (!ghost.lastIsSecure && acceptTrue)) ==> sw.#gkeys[iface(type(swapKey), accept_encrypt)] == old(sw.#gkeys[iface(type(swapKey), accept_encrypt)])
+
+// decrypt side, after the body is read
+//@ func (*decryptPlugin).PostReadCallBody
+//@   property C17
+//@   flags libframe seq
+//@   requires e.statCode != 0
+//@   let im = inMsg(ctx)
+//@   let sw = swapOf(ctx)
+//@   let parked = old(sw.#gkeys[iface(type(swapKey), encrypt_rawbody)])
+//@   let enc = as(old(im.body), type(*Encrypt))
+//@   modifies im.body, allelems(type(byte)), mapviews, ghost.lastUnmarshal, ghost.unmarshals
+//@   ensures[unmarked-untouched] !parked ==> result == nil && im.body == old(im.body) && ghost.unmarshals == old(ghost.unmarshals)
+//@   ensures[other-key-rejected] parked && old(enc.Cipherversion) != e.version ==> !statOK(result) && ghost.unmarshals == old(ghost.unmarshals)
+//@   ensures[restored] parked && statOK(result) ==> im.body == old(sw.#gvals[iface(type(swapKey), encrypt_rawbody)]) && !sw.#gkeys[iface(type(swapKey), encrypt_rawbody)] && ghost.unmarshals == old(ghost.unmarshals) + 1 && ghost.lastUnmarshal == aesDec(base(e.cipherkey), bytesOfStr(old(enc.Ciphertext)))
